@@ -340,7 +340,7 @@ func c19Sockets(c *Ctx) {
 // c19Conc: one extractor object serves all requests of a limiter, concurrently: every peer must get its own address,
 // every header its own value, whatever else is being extracted at the same moment (race build).
 func c19Conc(c *Ctx) {
-	c.Cases("conc", c.N(20, 300), func(i int, r *rand.Rand) {
+	c.Cases("conc", c.N(20, 120), func(i int, r *rand.Rand) {
 		ipx, err1 := utils.NewExtractor("client.ip")
 		hx, err2 := utils.NewExtractor("request.header.X-Api-Key")
 		hostx, err3 := utils.NewExtractor("request.host")
@@ -358,7 +358,7 @@ func c19Conc(c *Ctx) {
 				}
 			}
 		}
-		per := c.N(20000, 200000)
+		per := c.N(20000, 60000)
 		var bad atomic.Int64
 		var first sync.Map
 		var wg sync.WaitGroup
